@@ -41,6 +41,9 @@ def tag_shapes(rng, quick):
         'ordis': lambda: ordisabled('steps.a.outputs.success'),
         'oneof-with-wait': lambda: oneof('kind', {'ok': tmap({'v': ref('steps.a.outputs.success.tok'), 'w': opt('steps.b.outputs.success', True)}),
                                                   'bad': tmap({'v': ref('steps.a.outputs.error.reason')})}),
+        # a soft-optional inside a one-of option must not make the option (and its consumer) wait for the soft source
+        'oneof-with-soft': lambda: oneof('kind', {'ok': tmap({'v': ref('steps.a.outputs.success.tok'), 'w': opt('steps.b.outputs.success', False)}),
+                                                  'bad': tmap({'v': ref('steps.a.outputs.error.reason')})}),
     }
     placements = {
         'top': lambda t: {'x': t},
@@ -52,7 +55,7 @@ def tag_shapes(rng, quick):
     combos = list(itertools.product(tags, placements, outcomes))
     if quick:
         rng.shuffle(combos)
-        combos = combos[:40]
+        combos = combos[:40] + [c for c in combos[40:] if c[0] == 'oneof-with-soft' and c[2] == ('success', 'success')][:2]
     for tg, pl, (oa, ob) in combos:
         def mk_oc(o):
             if o == 'disabled':
@@ -71,6 +74,8 @@ def tag_shapes(rng, quick):
         oc = {'a': mk_oc(oa), 'b': mk_oc(ob), 'c': okoc()}
         script = {sid: {'deploy': {'fail': oc[sid]['deploy'] == 'fail'},
                         'exec': {'out': oc[sid]['beh'], 'delay_ms': rng.choice([0, 2, 6])}} for sid in ('a', 'b', 'c')}
+        if tg == 'oneof-with-soft':
+            script['b']['exec']['delay_ms'] = 80      # the soft source is slow: nobody may wait for it
         items.append({'wf': wf, 'oc': oc, 'script': script, 'input': {'x': 'x', 'n': 1, 'flag': True},
                       'schedule': gen.noise_schedule(rng, max_us=300), 'at': '%s/%s a=%s b=%s' % (tg, pl, oa, ob)})
     return items
